@@ -104,6 +104,27 @@ CLAIMED = {
         "robustness clause is checked with a reference re-implementation and preconditions derived from the selection formula.",
         "Lean 4 proof (partial: invariants, selection rule, WLS result) + exact-rational differential correspondence of both rounds",
         "DESIGN.md §7 C05"),
+    "C03": (
+        "Partial proof. Machine-checked: argmax = first position of the maximum; refinement radius = 2 clipped at the "
+        "window border with the cut-out inside the map; refined = centre + COM - r; elevation from slopes at distance >= "
+        "3/2 (constants and comparison pinned to the current source); re-anchoring _shift/_unshift; log argument x-min+1 "
+        "(per crop / per frame); index map of the correlation for every size parity (ifftshift centres the mask on the "
+        "evaluated pixel; fftshift counterexample). ASSUMED: FFT product = circular convolution (A-FFT) - the real maps are "
+        "compared with the model's exact direct sum; real kernels compared stage by stage with the exact model.",
+        "Lean kernel + standard axioms; translator; A-FFT, A-FLOAT (float32 kernels vs exact arithmetic within stated "
+        "tolerances).",
+        "Lean 4 proof (partial) on source-generated kernel logic + stage-wise exact differential correspondence + brute-force oracle",
+        "DESIGN.md §7 C03"),
+    "C04": (
+        "Machine-checked proofs of the index / sign / finiteness logic: centre within [peak-c, peak+c-1]; signed 16-bit "
+        "storage without wrap-around (uint16 counterexample); centre of mass of non-negative weights lies in the cut-out so "
+        "|refined - centre| <= r <= 2; positive COM total when r >= 1 (no 0/0); elevation >= 0 and taken over a non-empty "
+        "set for maps >= 4 px; every upsampling offset has modulus <= 0.75 + 0.5/us; upsampling writes only refineds; "
+        "cut-out / crop index safety. Finiteness of FFT/log themselves is assumed (A-FLOAT).",
+        "Lean kernel + standard axioms; translator; A-FLOAT; numba execution modes (JIT / bounds-checked / interpreter) are "
+        "exercised by the harness, not modelled.",
+        "Lean 4 proof on source-generated definitions + oracle in three numba execution modes",
+        "DESIGN.md §7 C04"),
 }
 
 NOT_YET = {}
